@@ -132,7 +132,7 @@ def check_world(prop, tier, seed, replay=None):
         violations.append((path, True))
     if tier == 'thorough' and audit['obligations']:
         ok, out = vlib.leanchecker(prop)
-        notes.append('leanchecker TrompModel.Props.%s: %s' % (prop, 'ok' if ok else 'FAILED'))
+        notes.append('leanchecker over TrompModel.Props.%s* and the tie modules serving it: %s' % (prop, out if ok else 'FAILED'))
         if not ok:
             path = vlib.write_replay(prop, tier, seed, 'leanchecker', ['verdict tie-broken', 'broken leanchecker'], out.split('\n'))
             violations.append((path, True))
@@ -526,7 +526,7 @@ def check_pure(prop, tier, seed, replay, harness, mode, gen_lines, rule, assumpt
         violations.append((path, True))
     if tier == 'thorough' and audit['obligations']:
         ok, out = vlib.leanchecker(prop)
-        notes.append('leanchecker TrompModel.Props.%s: %s' % (prop, 'ok' if ok else 'FAILED'))
+        notes.append('leanchecker over TrompModel.Props.%s* and the tie modules serving it: %s' % (prop, out if ok else 'FAILED'))
         if not ok:
             path = vlib.write_replay(prop, tier, seed, 'leanchecker', ['verdict tie-broken', 'broken leanchecker'], out.split('\n'))
             violations.append((path, True))
@@ -788,7 +788,7 @@ def check_translated(prop, tier, seed, replay):
         violations.append([path, True])
     if tier == 'thorough' and audit['obligations'] and lean_dir == vlib.LEAN_DIR:
         ok, out = vlib.leanchecker(prop)
-        notes.append('leanchecker TrompModel.Props.%s: %s' % (prop, 'ok' if ok else 'FAILED'))
+        notes.append('leanchecker over TrompModel.Props.%s* and the tie modules serving it: %s' % (prop, out if ok else 'FAILED'))
     found_input = False
     stats = {}
     samples = []
@@ -1025,7 +1025,7 @@ def check_c20(tier, seed, replay):
         violations.append((path, True))
     if tier == 'thorough' and audit['obligations']:
         ok, out = vlib.leanchecker(prop)
-        notes.append('leanchecker TrompModel.Props.%s: %s' % (prop, 'ok' if ok else 'FAILED'))
+        notes.append('leanchecker over TrompModel.Props.%s* and the tie modules serving it: %s' % (prop, out if ok else 'FAILED'))
     try:
         hx = vlib.build_simple_harness('coro', std='c++20')
     except vlib.BuildError as e:
